@@ -18,7 +18,7 @@ the token `err`.
 * `pssh <version> <sys> <kids> <data>`, `decodepssh <hex>`, `prpssh <kids> <pro>`, `ckpssh <kids>`
 * `b64enc <hex>`, `b64dec <text>` (`ok:<hex>` | `error` | `outside`)
 * `licence <kid:key,…> <ids|none> <0|1>` – ids `s:<text>` or `o`
-* `drmsel <string>`, `hdrver <0|1 aesctr> <nkeys>`, `drmctx <version|-> <0|1 aesctr> <nkeys> <string>`,
+* `drmsel <string>`, `drmprint <string>`, `hdrver <0|1 aesctr> <nkeys>`, `drmctx <version|-> <0|1 aesctr> <nkeys> <string>`,
   `initpsshs <0|1 encrypted> <version|-> <0|1 aesctr> <string> <kids> <pro>`
 * `wrmheader <hv> <sl> <kid:key:alg:computed,…> <default kid> <la|none> <custom|->`, `parsewrm <text>`,
   `hdrchoice <version|-> <header version|-> <0|1 aesctr> <nkeys>`
@@ -209,6 +209,25 @@ def drmsel : List String → Option String
             showSys sys ++ ":" ++ (if locs.isEmpty then "-" else joinWith "," (locs.map showLoc))))
   | _ => none
 
+/-- `drmprint <selection>`: what `_drm_selection_to_string` writes for the parsed selection -/
+def drmprint : List String → Option String
+  | [s] =>
+    match parseHex s with
+    | none => none
+    | some _ =>
+      match parseSelArg s with
+      | none => some "err"
+      | some sel =>
+        match InitRewrite.printSelection sel with
+        | .all => some "all"
+        | .items l =>
+          some (if l.isEmpty then "-" else
+            joinWith "," (l.map fun (sys, locs) =>
+              match locs with
+              | none => showSys sys
+              | some ls => joinWith "-" (showSys sys :: ls.map showLoc)))
+  | _ => none
+
 def hdrver : List String → Option String
   | [aes, n] => do
     let h := PlayReady.minimumHeaderVersion (← parseBool aes) (← parseNat n)
@@ -380,7 +399,7 @@ def channels : List (String × (List String → Option String)) := [
   ("checksum", checksum), ("genpro", genpro), ("parsepro", parsepro), ("wrmbytes", wrmbytes),
   ("utf16dec", utf16dec), ("pssh", pssh), ("decodepssh", decodepssh), ("prpssh", prpssh),
   ("ckpssh", ckpssh), ("b64enc", b64enc), ("b64dec", b64dec), ("licence", licence),
-  ("drmsel", drmsel), ("hdrver", hdrver), ("drmctx", drmctx), ("initpsshs", initpsshs),
+  ("drmsel", drmsel), ("drmprint", drmprint), ("hdrver", hdrver), ("drmctx", drmctx), ("initpsshs", initpsshs),
   ("initrewrite", initrewrite), ("parseboxes", parseboxes),
   ("wrmheader", wrmheader), ("parsewrm", parsewrm), ("hdrchoice", hdrchoice)]
 
